@@ -164,6 +164,19 @@ func (ctx *Ctx) funcKey(fn *ssa.Function) string {
 
 func (ctx *Ctx) contractOf(fn *ssa.Function) *Contract {
 	if c, ok := ctx.cs.ByFunc[ctx.funcKey(fn)]; ok {
+		// type invariants of the parameters are added to written contracts too (once)
+		ctx.mu.Lock()
+		done := c.tiMerged
+		c.tiMerged = true
+		ctx.mu.Unlock()
+		if !done && !c.NoTypeInv {
+			if sc := ctx.synthContract(fn); sc != nil {
+				ctx.mu.Lock()
+				c.Requires = append(append([]*Clause{}, sc.Requires...), c.Requires...)
+				c.Ensures = append(c.Ensures, sc.Ensures...)
+				ctx.mu.Unlock()
+			}
+		}
 		return c
 	}
 	return ctx.synthContract(fn)
